@@ -15,6 +15,7 @@ INIT Init
 NEXT Next
 VIEW view
 INVARIANT TypeOK
+INVARIANT NeverStuck
 INVARIANT Completes
 INVARIANT ExactCounts
 INVARIANT NoDup
